@@ -24,6 +24,12 @@ package crashmonitor
 
 // parseStackPCs is total: no panic on any text, and the scan terminates.
 //@ contract parseStackPCs
+// Lines are classified as received: the sentinel, goroutine-header and
+// running-status tests look at the raw line (the runtime indents continuation
+// lines of a panic message; trimming would let message text pose as a header).
+//@   at call HasPrefix#1: assert arg0 == lines[i]
+//@   at call HasPrefix#2: assert arg0 == lines[i]
+//@   at call Contains#1: assert arg0 == lines[i]
 //@   ensures result1 != nil ==> len(result0) == 0
 // The sentinel is taken from the first "sentinel " line only: later text that
 // looks like one cannot shift the program counters.
